@@ -13,7 +13,10 @@ mod c02;
 mod c03;
 mod c06;
 mod c07;
+mod c09;
+mod c11;
 mod c12;
+mod c13;
 mod c14;
 mod gen;
 mod pq;
@@ -54,6 +57,9 @@ fn main() {
         "C06" => c06::run(&env, replay.as_deref()),
         "C07" => c07::run(&env, replay.as_deref()),
         "C14" => c14::run(&env, replay.as_deref()),
+        "C09" => c09::run(&env, replay.as_deref()),
+        "C11" => c11::run(&env, replay.as_deref()),
+        "C13" => c13::run(&env, replay.as_deref()),
         "C12" => c12::run(&env, replay.as_deref()),
         _ => {
             eprintln!("unknown property {}", prop);
